@@ -11,6 +11,7 @@ import SshuttleModel.Spec.Bootstrap
 import SshuttleModel.Lemmas.BootstrapInstances
 import SshuttleModel.Lemmas.BootstrapOptions
 import SshuttleModel.Lemmas.BootstrapUtf8
+import SshuttleModel.Lemmas.BootstrapSession
 
 namespace Sshuttle.Bootstrap
 
@@ -281,6 +282,61 @@ theorem C18_reordered_main_breaks :
         (fun k => if k = "auto_nets" then some (.bool true) else some .none) ≠
       [("auto_nets", some (.bool true)), ("to_nameserver", some .none)] := by decide
 
+/-- **Every falsy value survives.**  `False`, `0`, `None`, `''` and `[]` — the values a
+"leave out what is unset" shortcut would lose — are rendered and read back as themselves. -/
+theorem C18_falsy_values_survive (np : Nat → Bool) (rest : List Nat) :
+    ∀ v ∈ [Val.bool false, .int 0, .none, .str [], .emptyList],
+      parseLit (reprVal np v ++ 10 :: rest) = some (v, 10 :: rest) := by
+  intro v hv
+  apply parseLit_repr
+  simp only [List.mem_cons, List.not_mem_nil, or_false] at hv
+  rcases hv with rfl | rfl | rfl | rfl | rfl <;> simp [ValidVal]
+
+/-- **Option binding, end to end.**  For every option record over the client's option names
+(regenerated `OPTION_KEYS`; values `bool`, `int`, `None`, `str`, `[]` — every falsy value
+included), whatever the non-printable set: rendering with `%r`, `encode("UTF8")`, the
+remote decoding and evaluation of the module body, attribute lookup by the expressions of
+`assembler.py`'s call and binding against the regenerated parameter list of `server.main`
+enter `server.main` with, for **each** parameter, exactly the value the client gave for the
+option of that name — and every parameter does receive a value. -/
+theorem C18_option_binding (np : Nat → Bool) (opts : List (List Nat × Val))
+    (hkeys : opts.map Prod.fst = Gen.C18.OPTION_KEYS.map bytesOfStr) (hv : ValidOpts opts)
+    (wire : Bytes) (henc : optdataOf np opts = some wire) :
+    ∃ ns, remoteOptions wire = some ns ∧
+      enterMain Gen.C18.SERVER_MAIN_PARAMS Gen.C18.MAIN_BINDING (lookupOpt ns) =
+        Gen.C18.SERVER_MAIN_PARAMS.map (fun p => (p, lookupOpt opts p)) ∧
+      ∀ p ∈ Gen.C18.SERVER_MAIN_PARAMS, (lookupOpt opts p).isSome = true := by
+  have hk : ∀ kv ∈ opts, 61 ∉ kv.1 ∧ 10 ∉ kv.1 := by
+    intro kv hm
+    apply option_keys_ok
+    rw [← hkeys]; exact List.mem_map_of_mem hm
+  have hw := C18_options_wire np opts hk hv wire henc
+  cases hr : remoteOptions wire with
+  | none => rw [hr] at hw; simp at hw
+  | some ns =>
+    rw [hr] at hw
+    simp only [Option.map_some, Option.some.injEq, Spec.SameOptions, eq_iff_iff, iff_true] at hw
+    subst hw
+    refine ⟨ns, rfl, (C18_server_main_receives (lookupOpt ns)).1, ?_⟩
+    intro p hp
+    apply lookupOpt_isSome
+    rw [hkeys]
+    exact List.mem_map_of_mem (pin_main_params.1 p hp)
+
+/-- Non-vacuity, with **all five options falsy** (`False`, `0`, `False`, `None`, `False` — the
+`--no-latency-control` session the seeded change M-C18-L lost) and once with `''`/`[]`:
+`server.main` is entered with exactly these. -/
+example :
+    let opts : List (List Nat × Val) :=
+      (Gen.C18.OPTION_KEYS.map bytesOfStr).zip [.bool false, .int 0, .bool false, .none, .bool false]
+    let opts2 : List (List Nat × Val) :=
+      (Gen.C18.OPTION_KEYS.map bytesOfStr).zip [.bool false, .emptyList, .str [], .str [], .emptyList]
+    ((optdataOf (fun _ => false) opts).bind remoteOptions).map
+        (fun ns => enterMain Gen.C18.SERVER_MAIN_PARAMS Gen.C18.MAIN_BINDING (lookupOpt ns)) =
+      some [("latency_control", some (.bool false)), ("latency_buffer_size", some (.int 0)),
+            ("auto_hosts", some (.bool false)), ("to_nameserver", some .none), ("auto_nets", some (.bool false))] ∧
+    ((optdataOf (fun _ => false) opts2).bind remoteOptions) = some opts2 := by decide +kernel
+
 /-! ## 4. Nothing is written between the upload and the server's announcement -/
 
 /-- **Nothing before sync.**  In every run of the client's start-up — every upload, every
@@ -317,5 +373,103 @@ example :
 to write): `Mux.__init__` leaves one 15-byte frame in `outbuf`. -/
 theorem C18_ping_is_queued : muxInit.outbuf = [[83, 83, 0, 0, 66, 1, 0, 7, 99, 104, 105, 99, 107, 101, 110]] := by
   decide
+
+/-! ## 5. Everything together -/
+
+/-- **The whole session start, as one statement.**  For every client file system (module
+sources of arbitrary bytes: any encoding, line ends, BOM, size), every lawful codec, every
+non-empty option record over the client's option names, every cut of the upload (followed
+by anything) into raw reads on the remote side, and every cut of the server's output into
+reads on the client side with any write grant — whenever `ssh.connect` succeeds in packaging:
+
+* the one-liner executes exactly the assembler source the client read;
+* the assembler loop ends normally having created exactly the packaged names, in order;
+* every module other than the options module was compiled from exactly the bytes of the
+  client's file of that name; the options module from exactly the rendered options;
+* the `import`s after the loop are served by the uploaded modules;
+* nothing beyond the upload was consumed;
+* the options module evaluates to the client's option record, and `server.main` is entered
+  with, for each parameter, the client's value of the option of that name;
+* the client wrote nothing but the upload before it accepted the server's init string. -/
+theorem C18_session (c : Codec) (hc : c.Lawful) (env : Env) (np : Nat → Bool)
+    (opts : List (List Nat × Val)) (hne : opts ≠ [])
+    (hkeys : opts.map Prod.fst = Gen.C18.OPTION_KEYS.map bytesOfStr) (hv : ValidOpts opts)
+    (wire : Bytes) (henc : optdataOf np opts = some wire)
+    (up : Upload) (hup : connect c env wire = .ok up)
+    (raw : List Bytes) (extra : Bytes) (hraw : Spec.Segmentation (up.content ++ up.content2 ++ extra) raw)
+    (serverOut : Handshake.Reader) (grant : Option Nat) :
+    env.fs Gen.C18.ASSEMBLER_MODULE_BYTES = some up.content ∧
+    (bootstrap c up.content.length [] raw).assembler = up.content ∧
+    (bootstrap c up.content.length [] raw).fin = .done ∧
+    (bootstrap c up.content.length [] raw).st.mods.map Prod.fst = Gen.C18.PACKAGED_BYTES ∧
+    (∀ n d, (n, d) ∈ (bootstrap c up.content.length [] raw).st.mods →
+      (n ∉ Gen.C18.EXPLICIT_DATA_BYTES → env.fs n = some d) ∧ (n ∈ Gen.C18.EXPLICIT_DATA_BYTES → d = wire)) ∧
+    importsResolved (bootstrap c up.content.length [] raw).st.mods Gen.C18.ASSEMBLER_IMPORTS_BYTES = true ∧
+    (bootstrap c up.content.length [] raw).st.rd.flat = extra ∧
+    remoteOptions wire = some opts ∧
+    enterMain Gen.C18.SERVER_MAIN_PARAMS Gen.C18.MAIN_BINDING (lookupOpt opts) =
+      Gen.C18.SERVER_MAIN_PARAMS.map (fun p => (p, lookupOpt opts p)) ∧
+    (∀ p ∈ Gen.C18.SERVER_MAIN_PARAMS, (lookupOpt opts p).isSome = true) ∧
+    Spec.QuietUntilSync (clientStart up serverOut grant) (up.content ++ up.content2) := by
+  obtain ⟨datas, h1, h2, h3, h4, h5, h6⟩ := C18_connect_assembles c hc env wire up hup raw extra hraw
+  obtain ⟨ns, hn1, hn2, hn3⟩ := C18_option_binding np opts hkeys hv wire henc
+  have hk : ∀ kv ∈ opts, 61 ∉ kv.1 ∧ 10 ∉ kv.1 := by
+    intro kv hm
+    apply option_keys_ok
+    rw [← hkeys]; exact List.mem_map_of_mem hm
+  have hw := C18_options_wire np opts hk hv wire henc
+  rw [hn1] at hw
+  simp only [Option.map_some, Option.some.injEq, Spec.SameOptions, eq_iff_iff, iff_true] at hw
+  subst hw
+  have hlen : Gen.C18.PACKAGED_BYTES.length = datas.length := by
+    have := congrArg List.length h1
+    simpa using this
+  have hasm : env.fs Gen.C18.ASSEMBLER_MODULE_BYTES = some up.content := by
+    unfold connect connectWith at hup
+    cases hs : getModuleSource Gen.C18.SOURCE_BINARY env Gen.C18.ASSEMBLER_MODULE_BYTES with
+    | noSuchModule => rw [hs] at hup; cases hup
+    | decodeError => rw [hs] at hup; cases hup
+    | ok content =>
+      rw [hs] at hup
+      simp only at hup
+      cases hp : packList c Gen.C18.SOURCE_BINARY env Gen.C18.EXPLICIT_DATA_BYTES wire c.cinit Gen.C18.PACKAGED_BYTES with
+      | error e => rw [hp] at hup; cases hup
+      | ok frames =>
+        rw [hp] at hup
+        simp only [Except.ok.injEq] at hup
+        subst hup
+        rw [pin_source_binary] at hs
+        unfold getModuleSource at hs
+        cases hf : env.fs Gen.C18.ASSEMBLER_MODULE_BYTES with
+        | none => rw [hf] at hs; cases hs
+        | some file =>
+          rw [hf] at hs
+          simp only [↓reduceIte, SrcRes.ok.injEq] at hs
+          rw [hs]
+  refine ⟨hasm, h2, h3, ?_, ?_, h5, h6, hn1, hn2, hn3, (C18_nothing_before_sync up serverOut grant).1⟩
+  · rw [h4, List.map_fst_zip]; omega
+  · intro n d hm
+    rw [h4] at hm
+    have hsrc := zip_mem_of_map_eq
+      (fun n => srcFor Gen.C18.SOURCE_BINARY env n (dataArg Gen.C18.EXPLICIT_DATA_BYTES wire n)) SrcRes.ok
+      _ _ h1 n d hm
+    constructor
+    · intro hnot
+      have hc' : Gen.C18.EXPLICIT_DATA_BYTES.contains n = false := by
+        simpa using hnot
+      rw [pin_source_binary] at hsrc
+      simp only [srcFor, dataArg, hc', Bool.false_eq_true, ↓reduceIte, getModuleSource] at hsrc
+      cases hf : env.fs n with
+      | none => rw [hf] at hsrc; cases hsrc
+      | some file =>
+        rw [hf] at hsrc
+        simp only [SrcRes.ok.injEq] at hsrc
+        rw [hsrc]
+    · intro hin
+      have hc' : Gen.C18.EXPLICIT_DATA_BYTES.contains n = true := by
+        simpa using hin
+      have hwne := optdata_nonempty np ns hne wire henc
+      simp only [srcFor, dataArg, hc', ↓reduceIte, hwne, Bool.false_eq_true, SrcRes.ok.injEq] at hsrc
+      exact hsrc.symm
 
 end Sshuttle.Bootstrap
